@@ -160,6 +160,7 @@ func wvGen(r *Rng, i int) *Sx {
 		add(wvConnect(r, s, r.Chance(1, 2), r.Chance(1, 4)))
 	}
 	n := r.Range(4, 35)
+	nadv := 0
 	for k := 0; k < n; k++ {
 		s := Pick(r, socks)
 		if !s.open || !s.conn {
@@ -218,7 +219,13 @@ func wvGen(r *Rng, i int) *Sx {
 		case x < 94:
 			add(L(A("terminate"), S(Pick(r, []string{"c1", "c2", "c3"}))))
 		case x < 97:
-			add(L(A("advance"), I(Pick(r, []int{500, 1500, 40000, 3000000}))))
+			// all stored durations are whole seconds: keep every sum of advances at least 100 ms away from a
+			// whole second (each advance is 300 ms mod 1 s, at most 6 per scenario) so that real-time jitter
+			// can never decide a comparison
+			if nadv < 6 {
+				nadv++
+				add(L(A("advance"), I(Pick(r, []int{300, 1300, 2300, 40300, 61300, 3000300}))))
+			}
 			if r.Bool() {
 				add(L(A("expire_check")))
 			}
